@@ -544,3 +544,74 @@ Proof.
   intros r j Hr Hj. rewrite Hcell by lia. unfold datarow. cbn [fst snd].
   destruct (Nat.ltb_spec r (length ps)); [reflexivity|lia].
 Qed.
+
+(* ---- all blocks ---- *)
+Lemma NR_app l1 l2 : NR (l1 ++ l2) = NR l1 ++ NR l2.
+Proof. unfold NR. now rewrite map_app, concat_app. Qed.
+Lemma DR_app l1 l2 : DR (l1 ++ l2) = DR l1 ++ DR l2.
+Proof. unfold DR. now rewrite map_app, concat_app. Qed.
+Lemma DATA_app l1 l2 r : DATA (l1 ++ l2) r = DATA l1 r ++ DATA l2 r.
+Proof. unfold DATA. now rewrite map_app, concat_app. Qed.
+
+Lemma import_blocks_fold total (bl : list blockT) : Forall (b_ok total) bl ->
+  forall post pre acc, bl = pre ++ post ->
+  fold_left (import_block A parse_period parse_val (NR bl)
+               (if w_desc o then DR bl else repeat ""%string (length (NR bl)))
+               (map (DATA bl) (seq 0 total)))
+            (blocks_from (map (fun b => (fst (fst b), hbody (snd b))) post) (length (NR pre))) (Ok acc)
+  = Ok (fold_left (fun d q => dset A d (fst q) (snd q)) (concat (map imported post)) acc).
+Proof.
+  intros Hok. induction post as [|b post IH]; intros pre acc E; [reflexivity|].
+  destruct b as [[f ps] its]. cbn [map blocks_from fst snd fold_left].
+  assert (Hall : Forall (b_ok total) pre /\ b_ok total (f, ps, its) /\ Forall (b_ok total) post).
+  { rewrite E in Hok. apply Forall_app in Hok as [H1 H2]. inversion H2; subst. tauto. }
+  destruct Hall as (Hpre & Hb & Hpost).
+  destruct (widths_pre total pre Hpre) as [Wd Wdata].
+  assert (Hits : its_ok its) by (destruct Hb; assumption).
+  assert (ENR : NR bl = NR pre ++ (mark_of_freq f :: hbody its) ++ NR post).
+  { rewrite E, NR_app. reflexivity. }
+  rewrite (import_block_step _ _ (DATA bl) total (length (NR pre)) f ps its acc Hb).
+  - specialize (IH (pre ++ [(f, ps, its)]) (fold_left (fun d q => dset A d (fst q) (snd q)) (imported (f, ps, its)) acc)).
+    assert (EL : length (NR (pre ++ [(f, ps, its)])) = (length (NR pre) + S (length (hbody its)))%nat).
+    { rewrite NR_app, app_length. unfold NR at 2. cbn [map concat hdr fst snd]. rewrite app_nil_r. reflexivity. }
+    rewrite EL in IH. rewrite IH by (rewrite <- app_assoc; exact E).
+    cbn [map concat]. now rewrite fold_left_app.
+  - rewrite ENR. apply slice_mid.
+  - destruct (w_desc o) eqn:Ed.
+    + assert (EDR : DR bl = DR pre ++ (""%string :: dbody its) ++ DR post).
+      { rewrite E, DR_app. reflexivity. }
+      rewrite EDR, <- Wd, hbody_length, <- (dbody_length its) by assumption. apply slice_mid.
+    + apply slice_repeat. rewrite ENR, !app_length. cbn [length]. lia.
+  - intros r j Hr Hj.
+    assert (ED : DATA bl r = DATA pre r ++ datarow (f, ps, its) r ++ DATA post r).
+    { rewrite E, DATA_app. reflexivity. }
+    unfold cell_at. rewrite ED, <- (Wdata r), app_nth2_plus. apply app_nth1.
+    rewrite datarow_length by assumption. exact Hj.
+Qed.
+
+Lemma hbody_no_end (its : itemsT) : its_ok its -> Forall (fun c => is_end c = false) (hbody its).
+Proof.
+  intros H. unfold hbody. apply Forall_app. split; [|repeat constructor].
+  rewrite combine_fst_nvs. unfold header_cells. apply Forall_forall. intros c Hc.
+  apply in_flat_map in Hc as (q & Hq & Hc). apply in_map_iff in Hq as (p & <- & Hp). cbn [fst snd] in Hc.
+  destruct Hc as [<-|Hc].
+  - eapply Forall_forall in H; [|exact Hp]. destruct H as ((_ & _ & Hpre) & _). exact Hpre.
+  - apply repeat_spec in Hc. subst c. reflexivity.
+Qed.
+
+Theorem import_export_blocks total (bl : list blockT) : bl <> [] -> Forall (b_ok total) bl ->
+  import A parse_period parse_val (w_desc o) (hcat_all (map (bgrid total) bl))
+  = Ok (fold_left (fun d q => dset A d (fst q) (snd q)) (concat (map imported bl)) []).
+Proof.
+  intros Hne Hok. rewrite grid_shape by assumption.
+  assert (Eblocks : blocks_of (NR bl) = blocks_from (map (fun b => (fst (fst b), hbody (snd b))) bl) 0).
+  { unfold blocks_of, NR.
+    replace (map hdr bl) with (map (fun p : Z * row => mark_of_freq (fst p) :: snd p)
+                                   (map (fun b : blockT => (fst (fst b), hbody (snd b))) bl))
+      by (rewrite map_map; reflexivity).
+    rewrite scan_marks; [reflexivity|].
+    intros f body Hin. apply in_map_iff in Hin as (b & Eb & Hb). inversion Eb; subst.
+    eapply Forall_forall in Hok; [|exact Hb]. destruct Hok as (H1 & _ & _ & H4). split; [assumption|now apply hbody_no_end]. }
+  pose proof (import_blocks_fold total bl Hok bl [] [] eq_refl) as Hfold. cbn [NR map concat length] in Hfold.
+  unfold import. destruct (w_desc o); cbn [app]; rewrite Eblocks; exact Hfold.
+Qed.
